@@ -3,6 +3,7 @@ import LenaModel.Lemmas.C02
 import LenaModel.Lemmas.C02Neg
 import LenaModel.Lemmas.C02Split
 import LenaModel.Lemmas.C02Spec
+import LenaModel.Lemmas.C02Sim
 /-! # C02 — property theorems: evaluation is lazy
 
 The model (`Model/C02.lean`) runs pipelines of generators with explicit state over an instrumented
@@ -312,6 +313,129 @@ theorem slice_after_infinite_terminates (f : Nat → α) (gs : List (α → α))
 example : ((Stage.islice 0 (some 3) 1).run (seqRun ([fun x => x * 10].map Stage.map) (Pipe.ofFn (fun i => i)))).take 4 7
     = ([(0, 1), (10, 2), (20, 3)], Ending.exhausted, 3) := by decide
 
+/-! ## infinite inputs, any pipeline: prefix determinacy -/
+
+theorem range_map_shift (f : Nat → α) (c k : Nat) :
+    (List.range (k + 1)).map (fun i => f (c + i)) = f c :: (List.range k).map (fun i => f (c + 1 + i)) := by
+  rw [List.range_succ_eq_map]
+  simp only [List.map_cons, List.map_map, Nat.add_zero, List.cons.injEq, true_and]
+  apply List.map_congr_left
+  intro i _
+  simp only [Function.comp]
+  congr 1
+  omega
+
+/-- the infinite input and its prefix of `n` values are indistinguishable until the prefix reports its
+end, i.e. while the clock is at most `n` -/
+theorem source_pipeSim (f : Nat → α) (n fu : Nat) : PipeSim fu n (Pipe.ofFn f) (Pipe.ofList (prefixOf f n)) := by
+  refine ⟨fun (c : Nat) (src : Src α) => src.ended = false ∧ src.clock = c ∧ c ≤ n ∧
+      src.rest = (List.range (n - c)).map (fun i => f (c + i)),
+    fun (src : Src α) => src.ended = true ∧ src.rest = [] ∧ n < src.clock, ⟨?_, ?_⟩, ?_, ?_, ?_⟩
+  · rintro c ⟨rest, clock, ended⟩ ⟨h1, h2, h3, h4⟩
+    simp only at h1 h2 h3 h4
+    subst h1 h2
+    cases hk : n - clock with
+    | zero =>
+      right
+      rw [hk] at h4
+      simp only [List.range_zero, List.map_nil] at h4
+      subst h4
+      show OutDead _ (Out.done _)
+      exact ⟨rfl, rfl, by show n < clock + 1; omega⟩
+    | succ k =>
+      left
+      rw [hk, range_map_shift] at h4
+      subst h4
+      show OutRel _ (Out.item _ _) (Out.item _ _)
+      refine ⟨rfl, rfl, rfl, by show clock + 1 ≤ n; omega, ?_⟩
+      have : n - (clock + 1) = k := by omega
+      rw [this]
+  · rintro ⟨rest, clock, ended⟩ ⟨h1, h2, h3⟩
+    simp only at h1 h2 h3
+    subst h1 h2
+    show OutDead _ (Out.done _)
+    exact ⟨rfl, rfl, h3⟩
+  · refine ⟨rfl, rfl, Nat.zero_le _, ?_⟩
+    show (List.range n).map f = (List.range (n - 0)).map (fun i => f (0 + i))
+    simp
+  · rintro c src ⟨_, h2, _, _⟩
+    exact h2.symm
+  · rintro src ⟨_, _, h3⟩
+    exact h3
+
+/-- **`pipeline_lazy_infinite`** — the main sentence for infinite inputs, for EVERY pipeline of streaming
+elements (Filter, Count, RunIf, negative Slice, Split, … in any order).  Let `spec` be the stamped flow
+of the pipeline on the first `n` values of the input.  If what the consumer asks for — `k` results —
+is settled within that prefix (`spec.need k ≤ n`: the `k`-th result is handed over, or the end of the
+results is reported, before the prefix is exhausted), then over the infinite input the consumer
+receives exactly the same values at the same pull counts and the input has been pulled `spec.need k`
+times: the pipeline terminates, and it has not looked at anything beyond the prefix that determines
+its results. -/
+theorem pipeline_lazy_infinite (els : List (Stage α)) (hwf : ∀ e ∈ els, e.WF) (f : Nat → α) (n fu : Nat)
+    (hfu : seqFuelOK els (SF.ofList (prefixOf f n)) fu) (k : Nat)
+    (hk : (seqSpec els (SF.ofList (prefixOf f n))).need k ≤ n) :
+    (seqRun els (Pipe.ofFn f)).take fu k =
+      ((seqSpec els (SF.ofList (prefixOf f n))).vals.take k,
+       if k ≤ (seqSpec els (SF.ofList (prefixOf f n))).vals.length then Ending.stoppedByConsumer else Ending.exhausted,
+       (seqSpec els (SF.ofList (prefixOf f n))).need k) := by
+  have hfin := pipeline_lazy els hwf (prefixOf f n) fu hfu k
+  obtain ⟨R, dead, hs, h0, hc, hd⟩ := seq_pipeSim els fu n _ _ (source_pipeSim f n fu)
+  unfold Pipe.take at hfin ⊢
+  rw [← hfin]
+  apply take_sim hs hc hd k _ _ h0
+  · rw [hfin]; exact hk
+  · rw [hfin]; simp only; split <;> simp
+  · intro e; rw [hfin]; simp only; split <;> simp
+
+/-- `Filter`, `Count` and a negative `Slice` before the terminating `Slice(2)`, over `0, 1, 2, …`:
+the pipeline ends, after 7 pulls -/
+example : (seqRun [Stage.filter (fun n : Nat => n % 2 == 0), .count (fun c v => v + 100 * c),
+      .negslice none (some (-1)) 1, .islice 0 (some 2) 1] (Pipe.ofFn (fun i => i))).take 60 5
+    = ([(0, 5), (2, 7)], Ending.exhausted, 7) := by decide
+
+/-- `Slice(-2, 1)` over an infinite input: nothing can be selected once 4 values have been seen -/
+example : (seqRun [Stage.negslice (some (-2)) (some 1) 1] (Pipe.ofFn (fun i => i))).take 60 3
+    = ([], Ending.exhausted, 4) := by decide
+
+/-! ## `bufsize=None` over an infinite input -/
+
+/-- **`split_none_never_returns`** — `Split(…, bufsize=None)` materialises its input (documented): over an
+input that always has another value its first `next` never returns a result — for every loop bound the
+outcome is `fuel`.  (The harness observes this as "more than LIMIT pulls".) -/
+theorem split_none_never_returns {σ σb : Type} (copyBuf : Bool) (up : Gen σ α) (fu : Nat) (I : σ → Prop)
+    (hI : ∀ s, I s → ∃ a s', up.next fu s = .item a s' ∧ I s') :
+    ∀ (n : Nat) (s : σ) (l : SSt σb α), I s → l.phase = .reading →
+      iter (splitStep none copyBuf up fu) n (s, l) = .fuel
+  | 0, _, _, _, _ => rfl
+  | n + 1, s, l, hs, hl => by
+    obtain ⟨a, s', h1, h2⟩ := hI s hs
+    have hstep : splitStep none copyBuf up fu (s, l) = .cont (s', { l with buf := l.buf ++ [a] }) := by
+      simp [splitStep, hl, blockFull, h1]
+    rw [iter_cont n hstep]
+    exact split_none_never_returns copyBuf up fu I hI n s' _ h2 hl
+
+example {σb : Type} (brs : List (Lena.C03.Branch σb Nat)) (fu : Nat) :
+    (splitG none true (fnSrc (fun i => i))).next fu (0, splitInit brs) = .fuel :=
+  split_none_never_returns true (fnSrc (fun i => i)) fu (fun _ => True) (fun s _ => ⟨s, s + 1, rfl, trivial⟩)
+    fu 0 (splitInit brs) trivial rfl
+
+/-! ## executable forms of the hypotheses (evaluated by the driver on every generated case) -/
+
+theorem negArgsB_iff (a b : Option Int) : negArgsB a b = true ↔ NegArgs a b := by
+  cases a <;> cases b <;> simp [negArgsB, NegArgs]
+
+theorem Stage.wfb_iff (st : Stage α) : st.wfb = true ↔ st.WF := by
+  cases st <;> simp [Stage.wfb, Stage.WF, negArgsB_iff, GoodBufsize]
+
+theorem seqFuelOKb_iff (els : List (Stage α)) (sf : SF α) (fu : Nat) :
+    seqFuelOKb els sf fu = true ↔ seqFuelOK els sf fu := by
+  induction els generalizing sf with
+  | nil => simp [seqFuelOKb, seqFuelOK]
+  | cons e es ih =>
+    simp only [seqFuelOKb, seqFuelOK, Bool.and_eq_true, ih]
+    apply and_congr_left'
+    cases e <;> simp [Stage.fuelOKb, Stage.fuelOK]
+
 /-! ## bounded buffering -/
 
 section buffers
@@ -390,6 +514,73 @@ theorem split_buffer_bound {σb : Type} (b : Nat) (copyBuf : Bool) (up : Gen σ 
     rw [hph] at ht
     simp only [Step.state?, Option.some.injEq] at ht
     subst ht; exact hI
+
+/-- input values `Count.run` holds: `prev_val` -/
+def CSt.held : CSt α → Nat
+  | .running _ _ => 1
+  | _ => 0
+
+/-- **`count_held_bound`** — `Count.run` keeps exactly one value of look-ahead -/
+theorem count_held_bound (l : CSt α) : l.held ≤ 1 := by cases l <;> simp [CSt.held]
+
+/-- input values `Split.run` retains: the block `orig_buf` is bound to and the block being read -/
+def SSt.held {σb : Type} (l : SSt σb α) : Nat := l.cur.length + l.buf.length
+
+/-- **`split_retention_bound`** — in every state `Split(…, bufsize=b).run` can reach, both the block bound
+to `orig_buf` and the block under construction have at most `b` values: at most `2·b` input values are
+retained (`Stage.cap`), which is what the weak-reference oracle of the harness allows for a `Split`. -/
+theorem split_retention_bound {σb : Type} (b : Nat) (copyBuf : Bool) (up : Gen σ α) (fu : Nat)
+    (brs : List (Lena.C03.Branch σb α)) (s : σ) (t : σ × SSt σb α)
+    (h : StepReach (splitStep (some b) copyBuf up fu) (s, splitInit brs) t) :
+    t.2.cur.length ≤ b ∧ t.2.buf.length ≤ b ∧ t.2.held ≤ 2 * b := by
+  have key : t.2.cur.length ≤ b ∧ t.2.buf.length ≤ b := by
+    refine stepReach_invariant _ (fun t => t.2.cur.length ≤ b ∧ t.2.buf.length ≤ b) ?_ (by simp [splitInit]) h
+    rintro ⟨s1, l⟩ t' hI ht
+    simp only at hI
+    simp only [splitStep] at ht
+    cases hph : l.phase with
+    | reading =>
+      rw [hph] at ht
+      simp only [blockFull] at ht
+      by_cases hfull : l.buf.length ≥ b
+      · simp only [hfull, decide_true, if_true, Step.state?, Option.some.injEq] at ht
+        subst ht; exact hI
+      · simp only [hfull, decide_false, Bool.false_eq_true, if_false] at ht
+        cases hn : up.next fu s1 with
+        | item a s' =>
+          rw [hn] at ht
+          simp only [Step.state?, Option.some.injEq] at ht
+          subst ht
+          exact ⟨hI.1, by simp; omega⟩
+        | done s' =>
+          rw [hn] at ht
+          simp only [Step.state?, Option.some.injEq] at ht
+          subst ht; exact hI
+        | fuel => rw [hn] at ht; simp [Step.state?] at ht
+        | error e => rw [hn] at ht; simp [Step.state?] at ht
+    | blockRead =>
+      rw [hph] at ht
+      simp only [processBlock] at ht
+      split at ht
+      · simp only [Step.state?, Option.some.injEq] at ht
+        subst ht; exact ⟨hI.2, hI.2⟩
+      · simp only [Step.state?, Option.some.injEq] at ht
+        subst ht; exact ⟨hI.2, by simp⟩
+    | emitting =>
+      rw [hph] at ht
+      cases hp : l.pending with
+      | nil => rw [hp] at ht; simp only [Step.state?, Option.some.injEq] at ht; subst ht; exact hI
+      | cons x r => rw [hp] at ht; simp only [Step.state?, Option.some.injEq] at ht; subst ht; exact hI
+    | finalEmit =>
+      rw [hph] at ht
+      cases hp : l.pending with
+      | nil => rw [hp] at ht; simp only [Step.state?, Option.some.injEq] at ht; subst ht; exact hI
+      | cons x r => rw [hp] at ht; simp only [Step.state?, Option.some.injEq] at ht; subst ht; exact hI
+    | finished =>
+      rw [hph] at ht
+      simp only [Step.state?, Option.some.injEq] at ht
+      subst ht; exact hI
+  exact ⟨key.1, key.2, by simp only [SSt.held]; omega⟩
 
 /-- the number of values `_run_negative_islice` holds in its deque -/
 def NSt.held : NSt α → Nat
